@@ -113,6 +113,8 @@ def gen_case(rng, tier, i):
         if rng.random() < 0.4:
             # a bound of exactly zero is a time like any other (the replication start of two of the three programs)
             seq.insert(rng.randint(1, len(seq)), rng.choice(["run_up_to:zero", "run_up_to_including:zero"]))
+        if rng.random() < 0.4:
+            seq.insert(rng.randint(1, len(seq)), rng.choice(["run_up_to:late", "run_up_to_including:late"]))
         return {"fam": "seq", "clock": clock, "seq": seq, "oneshot": rng.random() < 0.5}
     i -= nrand
     if i < ngate:
@@ -208,6 +210,15 @@ def _run_seq(case, ctx):
                 pref.mid = mid
                 out = h.cmd(c[:-5], zero)
                 ctx.count("zero_bounds_issued")
+            elif c.endswith(":late"):
+                # a bound between the last event inside the run and the replication end (the next pending event then lies at
+                # or beyond the end): the run pauses at the bound like at any other
+                late = {"float": 9.5, "int": 12, "duration": [9.0, "s"]}[case["clock"]]
+                pref.mid = late
+                exp = pref.apply(c[:-5])
+                pref.mid = mid
+                out = h.cmd(c[:-5], late)
+                ctx.count("late_bounds_issued")
             else:
                 exp = pref.apply(c)
                 if c in ("run_up_to", "run_up_to_including"):
